@@ -15,8 +15,9 @@ RULE = ("stub lengths 0..300 (every residue mod 16 ≥ 18 times) × verification
 ASSUMPTIONS = ["A.LengthLaws: the signature the security context returns has length header_len", "wire size < 65536"]
 
 
-def make_request(stub, vt, header_len, sign, use_async):
-    """runs the real client.request over a scripted transport; returns (wire bytes, provider, offsets)"""
+def make_request(stub, vt, header_len, sign, use_async, prior=()):
+    """runs the real client.request over a scripted transport; returns (wire bytes, provider, offsets).
+    `prior`: stub lengths of requests made on the SAME connection first (framing must not depend on the connection's history)"""
     from dpapi_ng._rpc import _client as rc
     auth = rpcfmt.ScriptedProvider(header_len=header_len) if header_len else None
     reply, _ = rpcsim.sealed_response(b"\x01\x02\x03\x04", header_len, sign) if auth else (None, None)
@@ -30,17 +31,23 @@ def make_request(stub, vt, header_len, sign, use_async):
             reader = asyncio.StreamReader()
             reader.feed_data(reply)
             w = rpcsim.FakeWriter()
+            for _ in prior:
+                reader.feed_data(reply)
             c = rpcsim.async_client(reader, w, auth)
             c._sign_header = sign
+            for k in prior:
+                await c.request(0, 0, bytes(k), verification_trailer=vt)
             resp = await c.request(0, 0, stub, verification_trailer=vt)
-            return w.sent[0], resp
+            return w.sent[-1], resp
         wire, resp = asyncio.run(go())
     else:
-        sock = rpcsim.FakeSocket(replies=[reply])
+        sock = rpcsim.FakeSocket(replies=[reply] * (len(prior) + 1))
         c = rpcsim.sync_client(sock, auth)
         c._sign_header = sign
+        for k in prior:
+            c.request(0, 0, bytes(k), verification_trailer=vt)
         resp = c.request(0, 0, stub, verification_trailer=vt)
-        wire = sock.sent[0]
+        wire = sock.sent[-1]
     return wire, auth, resp
 
 
@@ -59,8 +66,10 @@ def run(ctx):
                 for sign in ((False, True) if hl else (False,)):
                     use_async = rng.random() < 0.25
                     stub = bytes((i * 7 + n) & 0xFF for i in range(n))
+                    prior = () if rng.random() < 0.5 else tuple(rng.randrange(0, 48) for _ in range(rng.randrange(1, 3)))
+                    ctx.count(f"requests_before_on_same_connection:{len(prior)}")
                     try:
-                        wire, auth, resp = make_request(stub, vt if use_vt else None, hl, sign, use_async)
+                        wire, auth, resp = make_request(stub, vt if use_vt else None, hl, sign, use_async, prior)
                         out = "ok " + hx(wire)
                     except Exception as e:  # noqa
                         wire, auth = None, None
@@ -70,7 +79,7 @@ def run(ctx):
                     ctx.count(f"stub_len_mod16:{n % 16}")
                     ctx.count("vt:on" if use_vt else "vt:off")
                     if wire is None:
-                        ctx.violation("request() fails", {"stub_len": n, "vt": use_vt, "header_len": hl}, out, "ok")
+                        ctx.violation("request() fails", {"stub_len": n, "vt": use_vt, "header_len": hl, "prior_stub_lens": list(prior)}, out, "ok")
                         continue
                     # ---- independent receiver ------------------------------------------------------------
                     frag_len = int.from_bytes(wire[8:10], "little")
@@ -89,9 +98,9 @@ def run(ctx):
                             problems.append("security trailer not 16-byte aligned from the stub start")
                         if pad != tr - 24 - len(unpadded) or pad >= 16:
                             problems.append(f"pad_length {pad} is not the padding added ({tr - 24 - len(unpadded)})")
-                        (h_, b_, t_, s_) = auth.wrap_calls[0]
+                        (h_, b_, t_, s_) = auth.wrap_calls[-1]
                         want_body = unpadded + b"\x00" * ((-len(unpadded)) % 16)
-                        if len(auth.wrap_calls) != 1 or b_ != want_body or s_ != sign:
+                        if len(auth.wrap_calls) != 1 + len(prior) or b_ != want_body or s_ != sign:
                             problems.append("the region handed to the security context is not exactly stub + padding (+ verification trailer)")
                         if h_ != wire[:24] or t_ != wire[tr:tr + 8]:
                             problems.append("PDU header / security-trailer header are not sent in clear as handed to the context")
@@ -105,7 +114,7 @@ def run(ctx):
                     if use_vt and body_plain[(n + 3) // 4 * 4:(n + 3) // 4 * 4 + 8] != vtb[:8]:
                         problems.append("verification trailer is not at the next 4-byte boundary after the stub")
                     for pr in problems:
-                        ctx.violation("request framing: " + pr, {"stub_len": n, "vt": use_vt, "header_len": hl, "sign": sign, "async": use_async}, hx(wire)[:120], "see DESIGN C13")
+                        ctx.violation("request framing: " + pr, {"stub_len": n, "vt": use_vt, "header_len": hl, "sign": sign, "async": use_async, "prior_stub_lens": list(prior)}, hx(wire)[:120], "see DESIGN C13")
                     cases.append((f"mkrequest {a} 0 0 {hx(stub)} {hx(vtb) if use_vt else 'none'} {int(sign)}", f"ok {hx(wire)} {offs}"))
     # ---- reply path: exactly the declared auth padding is stripped ------------------------------------------------
     from dpapi_ng import _rpc as r
